@@ -7,11 +7,11 @@
      the rigid parser inverts the printer.  Float labels, non-ASCII and control characters are NOT modelled
      (exercised by the implementation round trip only);
    - whole BQM files (versions 1.0 and 2.0), whole QM files, whole expression members: decode (encode f) = f. *)
-From Coq Require Import List NArith ZArith Arith Bool.
-From Dimod Require Import Gen.Gen_Codec Model.Codec Model.ChkC09 Proofs.CodecBase Proofs.CodecFrame Proofs.CodecBqm Proofs.CodecBqmTop
+From Coq Require Import List NArith ZArith Arith Bool QArith.
+From Dimod Require Import Proofs.Widen Gen.Gen_Codec Model.Codec Model.ChkC09 Proofs.CodecBase Proofs.CodecFrame Proofs.CodecBqm Proofs.CodecBqmTop
   Proofs.CodecLabel Proofs.CodecJson Proofs.CodecBqmFull Proofs.CodecQm Proofs.CodecExpr
   Model.Rebuild Proofs.RebuildFacts Proofs.RebuildUpsert Gen.Gen_Loaders Model.Loaders Proofs.CodecAdj
-  Model.CodecEq Model.CqmFile Proofs.CqmFileFacts Proofs.CqmArchive Model.CqmFile2 Proofs.CqmArchive2.
+  Model.CodecEq Model.CqmFile Proofs.CqmFileFacts Proofs.CqmArchive Model.CqmFile2 Proofs.CqmArchive2 Model.Npy Proofs.NpyFacts.
 Import ListNotations.
 
 Theorem le_decode_encode : forall n x, (x < 256 ^ N.of_nat n)%N -> le_dec (le_enc n x) = x.
@@ -244,4 +244,33 @@ Example cqm2_archive_example :
   let m := mkC2model [(VT_BINARY, (zero, one)); (VT_INTEGER, (zero, five))] (Some [LStr [97]%N; LStr [98]%N]) obj
              [mkC2con (LStr [120;47;121]%N) lhs one [61;61]%N true (Some (two, [108;105;110;101;97;114]%N))] in
   length (cqm2_archive m) = 9 /\ match cqm2_read 2 (cqm2_archive m) with Ok m' => c2model_eqb m' m = true | Err => False end.
+Proof. vm_compute. split; reflexivity. Qed.
+
+(* float32 members inside a CQM (float64 biases): the widening of Model/CqmFile.v preserves the VALUE of every finite
+   binary32 number - zeros, subnormals (renormalised) and normal numbers - read off the fields (sign, biased exponent,
+   fraction) with the IEEE-754 meaning; infinities stay infinities and NaNs stay NaNs.  (The packing of the fields into
+   bytes is tied to NumPy by the `widen` stream of the check.) *)
+Theorem f32_widen_value : forall s e m, (m < 2 ^ 23)%N -> (e < 255)%N ->
+  oeq (val64 (widen_fields (s, e, m))) (val32 (s, e, m)).
+Proof. exact Widen.widen_value. Qed.
+Print Assumptions f32_widen_value.
+
+Theorem f32_widen_special : forall s m, (m < 2 ^ 23)%N ->
+  let '(s', e', m') := widen_fields (s, 255%N, m) in s' = s /\ e' = 2047%N /\ (m' = 0%N <-> m = 0%N) /\ (m' < 2 ^ 52)%N.
+Proof. exact Widen.widen_special. Qed.
+Print Assumptions f32_widen_special.
+
+(* the .npy members of a DQM file's data section (case_starts, linear_biases, quadratic_*, offset): the member decoder
+   inverts the NumPy format-1.0 layout for ANY amount k of header padding (the amount depends on the NumPy version),
+   for one-dimensional arrays of any length and scalars, any item width 1..8 *)
+Theorem npy_decode_encode : forall k a, NpyWF a ->
+  (N.of_nat (length (npy_dict a) + k + 1) < 256 ^ 2)%N ->
+  npy_decode (npy_encode k a) = Ok a.
+Proof. exact NpyFacts.npy_decode_encode. Qed.
+Print Assumptions npy_decode_encode.
+
+Example npy_example :
+  npy_decode (npy_encode 60 (mkNpy [60;117;50]%N (Some 2%N) [[0;0]%N; [2;0]%N]))
+  = Ok (mkNpy [60;117;50]%N (Some 2%N) [[0;0]%N; [2;0]%N])
+  /\ length (npy_encode 60 (mkNpy [60;117;50]%N (Some 2%N) [[0;0]%N; [2;0]%N])) = 132.
 Proof. vm_compute. split; reflexivity. Qed.
